@@ -27,7 +27,7 @@ F(n, x) == [nm |-> n, ex |-> x]
 ListE(xs) == [e |-> "list", xs |-> xs]
 FuncE(ps, body) == [e |-> "func", ps |-> ps, body |-> body]
 LetS(n, x) == [s |-> "let", nm |-> n, x |-> x]
-n_t == << "t" >>  n_u == << "u" >>  n_l == << "l" >>  n_m == << "m" >>  n_s == << "s" >>
+n_t == << "t" >>  n_u == << "u" >>  n_l == << "l" >>  n_m == << "m" >>  n_s == << "s" >>  n_p == << "p" >>
 n_inc == << "i", "n", "c" >>  n_add == << "a", "d", "d" >>  n_kv == << "k", "v" >>  n_red == << "r", "e", "d" >>
 n_lb == << "l", "b" >>  n_tb == << "t", "b" >>
 n_nn == << "n", "n" >>  n_nz == << "n", "z" >>
@@ -176,6 +176,13 @@ FamModDef == {"lit", "var", "bin", "module", "dot", "letuse"}
 FamFuncUse == {"lit", "var", "bin", "func", "select", "list", "letuse", "exprstmt"}
 PreShadow == << LetS(n_a, L(StrV(<< "a" >>))), LetS(n_x, L(StrV(<< "b" >>))) >>   \* outer a, x are strings; Sigs2's parameters a, x are integers
 NamesBC == << n_b, n_c >>
+FamModUse == {"lit", "var", "bin", "copy", "cast", "let"}        \* the instance of a (prelude) module is an operand
+ModE(ps, out, body) == [e |-> "module", ps |-> ps, out |-> out, body |-> body]
+PreMod == << LetS(n_m, ModE(<< >>, << L(StrV(<< "s" >>)) >>, << LetS(n_z, L(IntV(1))) >>)),                       \* out: a string
+             LetS(n_k, ModE(<< F(n_p, L(IntV(1))) >>, << Bin("dot", S(N_mod), S(n_p)) >>, << LetS(n_z, L(IntV(1))) >>)),   \* out: its parameter
+             LetS(n_u, ModE(<< F(n_p, L(IntV(1))) >>, << >>, << LetS(n_z, Bin("dot", S(N_mod), S(n_p))) >>)) >>           \* no out: {z = p}
+CastsIS == {"int", "str"}
+FldsP == << n_p >>
 FamCmpData == {"lit", "list", "tuple", "bin", "let"}            \* == and != between lists and tuples of every small shape
 OpsEqNe == {"eq", "ne"}
 FamFuncSel == {"lit", "var", "bin", "dot", "func", "letuse"}      \* bodies that select fields / elements of a parameter
